@@ -18,7 +18,7 @@ for pid in ids:
         evidence_file="evidence/%s.json" % pid,
         replay_cmd_template="./check %s --replay {path}" % pid,
         engine="coq-proof+correspondence",
-        level_claimed=dict(category="proof", text=P["level_text"], design_ref=P.get("design_ref", "DESIGN.md section 5, " + pid)),
+        level_claimed=dict(category="proof", text=P["level_text"], design_ref=P.get("design_ref", "DESIGN.md section 2, " + pid)),
         level_note=P["level_note"],
         technique=P.get("technique", "Coq 8.16 theorems over an executable Gallina model; model tied to the Go code by a differential correspondence check evaluated with vm_compute"),
     ))
